@@ -185,6 +185,10 @@ pub struct ModelView<'a> {
     /// contract with proposals every key of the range has a value — the proposed one, or the
     /// device's, or the empty value when the device has none.
     pub sparse: bool,
+    /// the device refuses ranges that run past the last key (fault `WrapError`). A range the set
+    /// does not touch is the device's business, refusal included; for a contract with proposals
+    /// every key up to the last one has a value and the range simply ends there.
+    pub wrap_error: Option<u32>,
 }
 
 impl StateRead for ModelView<'_> {
@@ -222,6 +226,14 @@ impl StateRead for ModelView<'_> {
             }
         }
         let contract_touched = self.overlay.map(|o| o.keys().any(|(oc, _)| *oc == c)).unwrap_or(false);
+        if let Some(id) = self.wrap_error {
+            if !contract_touched && crate::store::range_wraps(&k, num_values) {
+                return Err(SimErr {
+                    id,
+                    what: "range runs past the last key".into(),
+                });
+            }
+        }
         for _ in 0..num_values {
             let v = self
                 .overlay
@@ -517,12 +529,17 @@ fn two_pass_inner(w: &Workload, m: &Mat) -> ModelOut {
     let data = w.state_map();
     let bad = bad_keys(&w.faults);
     let sparse = w.faults.iter().any(|f| matches!(f, Fault::Sparse));
+    let wrap_error = w.faults.iter().find_map(|f| match f {
+        Fault::WrapError { id } => Some(*id),
+        _ => None,
+    });
     let empty = StateMap::new();
     let pre = ModelView {
         data: &data,
         overlay: None,
         bad: &bad,
         sparse,
+        wrap_error,
     };
     let parsed: Vec<Option<Vec<asm::Op>>> =
         w.programs.iter().map(|b| ops::from_bytes(b).ok()).collect();
@@ -559,6 +576,7 @@ fn two_pass_inner(w: &Workload, m: &Mat) -> ModelOut {
             overlay: Some(&empty),
             bad: &bad,
             sparse,
+            wrap_error,
         };
         for si in 0..n_sols {
             let Some(g) = traces[si].graph.clone() else {
@@ -647,6 +665,7 @@ fn two_pass_inner(w: &Workload, m: &Mat) -> ModelOut {
             overlay: Some(&overlay),
             bad: &bad,
             sparse,
+            wrap_error,
         };
         for si in 0..n_sols {
             let g = traces[si].graph.clone().expect("valid in pass 1");
